@@ -3,6 +3,7 @@ package util
 import (
 	"fmt"
 	"github.com/markusressel/fan2go/internal/ui"
+	"math"
 	"sort"
 	"strconv"
 )
@@ -52,6 +53,11 @@ func Ratio(target float64, rangeMin float64, rangeMax float64) float64 {
 
 // UpdateSimpleMovingAvg calculates the new moving average, based on an existing average and buffer size
 func UpdateSimpleMovingAvg(oldAvg float64, n int, newValue float64) float64 {
+	if math.IsInf(newValue-oldAvg, 0) && !math.IsInf(newValue, 0) && !math.IsInf(oldAvg, 0) {
+		// the difference of two finite values of opposite sign can overflow,
+		// which would make the average infinite for good: weight the two values instead
+		return oldAvg*(1-1/float64(n)) + newValue/float64(n)
+	}
 	return oldAvg + (1/float64(n))*(newValue-oldAvg)
 }
 
